@@ -181,6 +181,8 @@ def check_case(case, acc):
         if isinstance(step.exc, RecursionError):
             acc.note("calls_ending_in_RecursionError_not_bracket_checked")  # unbounded rollback recursion, see KF-C03-4
             return
+        if step.raised and not isinstance(step.exc, (mut.Veto, mut.VetoBase, RecursionError)) and not step.plan.get("evict"):
+            raise Violation("hook-exception-replaced", "%s: hook call %s raised, but the caller got %s: %s" % (ctx, step.raised, type(step.exc).__name__, step.exc))
         if isinstance(step.exc, mut.VetoBase):
             # an interrupt-like exception (not an Exception) left a hook: the call ends there - no handler of the library
             # reacts to it, so no further hook fires and nothing changes any more
